@@ -65,10 +65,11 @@ except Exception:                       # restated from DWARF 5 table 7.5/7.6 (o
 TRUSTED = list(wcore.TRUSTED) + ['Expression::size', 'Expression::write', 'StringTable::offset', 'LineStringTable::offset',
                                  'RangeListOffsets::get', 'LocationListOffsets::get', 'AbbreviationTable::add', 'drain_fixups']
 # scan_trusted reports the bare fn name
-TRUSTED = list(wcore.TRUSTED) + ['size', 'write', 'offset', 'get', 'add']
+TRUSTED = list(wcore.TRUSTED) + ['size', 'write', 'offset', 'get', 'add', 'drain_fixups', '<usize as core::convert::From<bool>>::from']
 VERUS_ARGS = ['--rlimit', '40']
 RETRY_RLIMIT = 120
 OWN = ['C11']
+WRITE_SPLIT = 6
 
 W0 = 'old(w).0.wv()'
 W1 = 'final(w).0.wv()'
@@ -323,6 +324,20 @@ def rd_fixed_size_text():
             'pub open spec fn rd_fixed_size(form: nat, enc: crate::common::Encoding) -> Option<nat> {\n' + '\n'.join(rows) + '\n    { None }\n}\n')
 
 
+FORM_LAYOUT_LEMMA = '''
+/// [C11:form-layout] the writer's size model agrees with the READER's size table: whenever the reader computes the size
+/// of the chosen form from the encoding alone (get_attribute_size; attrs [C03:size-table]), that is the size predicted
+/// by `size` ([C11:size-model]) and written by `write` ([C11:size-eq-len]).  Pure table-against-table proof.
+pub(crate) proof fn lemma_form_layout(v: AttributeValue, enc: Encoding, offsets: UnitOffsets)
+    ensures
+        attr_size_res(v, enc, offsets) matches Some(n) ==> (rd_fixed_size(form_of(v, enc).0.0 as nat, enc) matches Some(k) ==> n == k), // [C11:form-layout]
+        form_of(v, enc).1 is Some <==> form_of(v, enc).0.0 == 0x21, // [C11:form-implicit]
+{
+    hide(uleb_size); hide(sleb_size);
+}
+'''
+
+
 def write_clauses(findings):
     out = [f'[C11:size-eq-len] res is Ok ==> (attr_size_res(*self, {ENC}, *offsets) matches Some(n) && {W1}.len == {W0}.len + n)']
     for name, pat, cases in WVARS:
@@ -446,6 +461,12 @@ impl AbbreviationTable {
     pub fn add(&mut self, abbrev: Abbreviation) -> (res: u64)
     { unimplemented!() }
 }
+'''
+
+FROM_BOOL = '''
+/// std: `usize::from(bool)` is 0 / 1 (core::convert::From<bool> for usize; no vstd specification)
+pub assume_specification[<usize as core::convert::From<bool>>::from](b: bool) -> (r: usize)
+    ensures r == (if b { 1usize } else { 0usize });
 '''
 
 DRAIN = '''
@@ -584,6 +605,7 @@ use crate::wspec::*;''')
     sk.add('write::unit', un.item(r'^pub enum DebugInfoRef \{', label='DebugInfoRef').clean())
     sk.add('write::unit', un.item(r'^pub\(crate\) struct DebugInfoFixup \{', label='DebugInfoFixup').clean())
     sk.add('write::unit', core.rd('specs/wunit.rs').replace('/*GENERATED*/', gen_specs()), label='wunit-spec')
+    sk.add('write::unit', FORM_LAYOUT_LEMMA, label='lemma_form_layout', owners=OWN)
 
     # ---- UnitOffsets
     uo = un.item(r'^impl UnitOffsets \{', label='UnitOffsets(impl)').clean()
@@ -637,14 +659,15 @@ use crate::wspec::*;''')
     # the insert_before above shifts the text; the closing braces go after each call
     for k in range(2):
         av.insert_after('id.raw(unit.version())', ' }', nth=k)
+    # the closed forms of uleb_size/sleb_size are not needed (both sides name the same term): hidden, as the first
+    # statement of the two bodies (a Verus header; ghost)
+    for k in range(2):
+        av.insert_before('macro_rules! debug_assert_form {', 'hide(uleb_size); hide(sleb_size);\n        ', nth=k)
     av.splice('size', ret='res', requires=['attr_wf(*self)'], ensures=[
         f'[C11:size-model] res matches Ok(n) ==> attr_size_res(*self, {ENC}, *offsets) == Some(n as nat)',
-        # tie to the READER's table: whenever the reader computes the size of the chosen form from the encoding alone
-        # (get_attribute_size, attrs [C03:size-table]), that IS the predicted size
-        f'[C11:form-layout] res matches Ok(n) ==> (rd_fixed_size(form_of(*self, {ENC}).0.0 as nat, {ENC}) matches Some(k) ==> n as nat == k)',
         f'[C11:error-not-panic] res is Err ==> (*self matches AttributeValue::Exprloc(e) && e.size_spec({ENC}, Some(offsets)) is Err)',
         f'[C11:error-not-panic] attr_size_res(*self, {ENC}, *offsets) is None ==> res is Err'], canary=True)
-    av.splice('write', ret='res', requires=['attr_wf(*self)'], ensures=write_clauses(findings), canary=True)
+    av.splice('write', ret='res', requires=['attr_wf(*self)'], ensures=write_clauses(findings), canary=True, split=WRITE_SPLIT)
     sk.add('write::unit', av)
 
     if part2:
@@ -653,16 +676,156 @@ use crate::wspec::*;''')
 
 
 def reorder_contract(ui):
-    pass
+    """Unit::reorder_base_types: stable partition of the root's children (base types first), nothing else changes"""
+    K0 = 'old(self).ents()[old(self).root_ix() as int].kids()'
+    P = '|c: UnitEntryId| old(self).ents()[c.ix() as int].etag().0 == 0x24'      # DW_TAG_base_type (DWARF 5 table 7.3)
+    NP = '|c: UnitEntryId| old(self).ents()[c.ix() as int].etag().0 != 0x24'
+    ui.insert_after('for entry in ', 'it1: ', nth=0)
+    ui.insert_after('for entry in ', 'it2: ', nth=1)
+    ui.splice('reorder_base_types',
+              requires=['old(self).root_ix() < old(self).ents().len()',
+                        f'forall|j: int| 0 <= j < {K0}.len() ==> (#[trigger] {K0}[j]).ix() < old(self).ents().len()'],
+              ensures=[
+                  f'[C11:base-types-first] final(self).ents()[old(self).root_ix() as int].kids() == '
+                  f'filter_by({K0}, {P}, {K0}.len() as int) + filter_by({K0}, {NP}, {K0}.len() as int)',
+                  '[C11:reorder-frame] final(self).ents().len() == old(self).ents().len() && final(self).root_ix() == old(self).root_ix() && final(self).enc() == old(self).enc()',
+                  '[C11:reorder-frame] forall|i: int| 0 <= i < old(self).ents().len() && i != old(self).root_ix() ==> #[trigger] final(self).ents()[i] == old(self).ents()[i]',
+                  '[C11:reorder-frame] ({ let a = final(self).ents()[old(self).root_ix() as int]; let b = old(self).ents()[old(self).root_ix() as int]; '
+                  'a.eid() == b.eid() && a.etag() == b.etag() && a.esibling() == b.esibling() && a.eattrs() == b.eattrs() })'],
+              before=[('let mut root_children', f'let ghost k0 = {K0}; let ghost p = {P}; let ghost np = {NP};'),
+                      ('if self.entries[entry.index].tag == constants::DW_TAG_base_type {', 'proof { assert(*entry == k0[it1.index@]); assert(p(*entry) == (self.entries@[entry.index as int].tag.0 == 0x24)); }'),
+                      ('if self.entries[entry.index].tag != constants::DW_TAG_base_type {', 'proof { assert(*entry == k0[it2.index@]); assert(np(*entry) == (self.entries@[entry.index as int].tag.0 != 0x24)); }')],
+              loops={0: 'invariant root_children@ == filter_by(k0, p, it1.index@), root.children@ == k0, self.root.index < self.entries@.len(), p == (|c: UnitEntryId| old(self).ents()[c.ix() as int].etag().0 == 0x24), *root == self.entries@[self.root.index as int], '
+                        'self.entries@ == old(self).entries@, self.root == old(self).root, '
+                        'forall|j: int| 0 <= j < k0.len() ==> (#[trigger] k0[j]).ix() < self.entries@.len()',
+                     1: 'invariant root_children@ == filter_by(k0, p, k0.len() as int) + filter_by(k0, np, it2.index@), root.children@ == k0, self.root.index < self.entries@.len(), np == (|c: UnitEntryId| old(self).ents()[c.ix() as int].etag().0 != 0x24), '
+                        '*root == self.entries@[self.root.index as int], self.entries@ == old(self).entries@, self.root == old(self).root, '
+                        'forall|j: int| 0 <= j < k0.len() ==> (#[trigger] k0[j]).ix() < self.entries@.len()'})
 
 
 def populate_tree(ctx, sk, un):
-    pass
+    wcore.ensure_structural(sk, 'common', 'DebugInfoOffset')
+    ut = un.item(r'^impl UnitTable \{', label='UnitTable(impl)')
+    sk.add('write::unit', un.item(r'^pub struct UnitTable \{', label='UnitTable').clean())
+    ut.keep_only(['write_debug_info_fixups'])
+    ut.custom('R-DRAIN', 'for fixup in fixups.drain(..) {', 'let verif_drained = drain_fixups(fixups); for fixup in verif_drained {')
+    ut.clean()
+    ut.own(OWN)
+    ut.insert_members("    pub closed spec fn tbase(&self) -> BaseId { self.base_id }\n"
+                      "    pub closed spec fn tunits(&self) -> Seq<Unit> { self.units@ }")
+    ut.insert_after('for fixup in ', 'it: ')
+    W0u, W1u = 'old(w).wv()', 'final(w).wv()'
+    FIXOK = ('(fx.unit.base() == self.tbase() && fx.unit.ix() < self.tunits().len() && '
+             'self.tunits()[fx.unit.ix() as int].uoffs().knows(fx.entry))')
+    PATCHED = ('self.tunits()[fx.unit.ix() as int].uoffs().info_off(fx.entry) matches Some(o) && '
+               '#[trigger] {W}.ops[{W0}.ops.len() + k] == (WOp::PatchOffset {{ offset: fx.offset, val: o.0, section: SectionId::DebugInfo, size: fx.size }})')
+    ut.splice('write_debug_info_fixups', ret='res',
+              # "Panics if id is invalid": the ids recorded in the fix-ups belong to this table / their unit
+              requires=[f'forall|k: int| 0 <= k < old(fixups)@.len() ==> ({{ let fx = #[trigger] old(fixups)@[k]; {FIXOK} }})'],
+              ensures=[
+                  # every fix-up is applied at the recorded offset, with the recorded size, through the RELOCATABLE patch
+                  # primitive, with the offset the unit assigned to the entry (C18: PatchOffset, section .debug_info)
+                  f'[C11:fixup-patched][C18:fixup-offset-at] res is Ok ==> {W1u}.ops.len() == {W0u}.ops.len() + old(fixups)@.len() && '
+                  f'forall|k: int| 0 <= k < old(fixups)@.len() ==> ({{ let fx = old(fixups)@[k]; {PATCHED.format(W=W1u, W0=W0u)} }})',
+                  f'[C11:fixup-no-growth] res is Ok ==> {W1u}.len == {W0u}.len',
+                  f'[C11:w-frame] grew({W0u}, {W1u})'],
+              before=[('let verif_drained', 'let ghost fx0 = fixups@;'), ('crate::verif_assert((self.base_id) == (fixup.unit.base_id));', 'proof { assert(fixup == fx0[it.index@]); }')],
+              loops={0: f'invariant grew({W0u}, w.wv()), w.wv().len == {W0u}.len, w.wv().ops.len() == {W0u}.ops.len() + it.index@, verif_drained@ == fx0, '
+                        f'forall|k: int| 0 <= k < fx0.len() ==> ({{ let fx = #[trigger] fx0[k]; {FIXOK} }}), '
+                        f'forall|k: int| 0 <= k < it.index@ ==> ({{ let fx = fx0[k]; {PATCHED.format(W="w.wv()", W0=W0u)} }})'})
+    sk.add('write::unit', DRAIN, label='drain_fixups')
+    sk.add('write::unit', FROM_BOOL, label='usize::from(bool)')
+    sk.add('write::unit', ut)
+
+    di = un.item(r'^impl DebuggingInformationEntry \{', label='DebuggingInformationEntry(impl)')
+    di.keep_only(['abbreviation', 'size', 'write'])
+    di.clean()
+    di.own(OWN)
+    di.insert_after('for attr in ', 'ita: ', nth=0)     # abbreviation
+    di.insert_after('for attr in ', 'its: ', nth=1)     # size
+    di.insert_after('for attr in ', 'itw: ', nth=2)     # write
+    di.insert_after('for child in ', 'itc: ', nth=0)    # write
+
+    # the sibling attribute is a unit-relative reference of word size: ref4 / ref8 must have that layout in the reader's table
+    if FIXED_N.get(layout('DW_FORM_ref4')[1]) != 4 or FIXED_N.get(layout('DW_FORM_ref8')[1]) != 8:
+        raise Lost('wunit: DW_FORM_ref4/ref8 layouts')
+    SIB = f'(if encoding.format is Dwarf32 {{ {layout("DW_FORM_ref4")[0]:#x}u16 }} else {{ {layout("DW_FORM_ref8")[0]:#x}u16 }})'
+    S = 'self.sibn()'
+    SPECOK = ('({{ let at = #[trigger] self.eattrs()[k]; {A}[k + {S}].sname() == at.aname() && {A}[k + {S}].sform() == form_of(at.aval(), encoding).0 && '
+              '(form_of(at.aval(), encoding).1 matches Some(c) ==> {A}[k + {S}].sconst() == c) }})')
+    di.splice('abbreviation', ret='res', requires=['self.eattrs().len() < usize::MAX'], ensures=[
+        '[C11:abbrev-entry] res matches Ok(a) ==> a.atag() == self.etag() && a.ahas_children() == (self.kids().len() > 0) && '
+        f'a.aspecs().len() == self.eattrs().len() + {S}',
+        # DW_AT_sibling (0x01) first, as a reference of the unit's word size
+        f'[C11:abbrev-sibling] res matches Ok(a) ==> (self.has_sibling() ==> a.aspecs()[0].sname().0 == 0x01 && a.aspecs()[0].sform().0 == {SIB})',
+        # the declared form of every attribute is the form whose layout `write` emits
+        f'[C11:abbrev-forms] res matches Ok(a) ==> forall|k: int| 0 <= k < self.eattrs().len() ==> {SPECOK.format(A="a.aspecs()", S=S)}',
+        '[C11:error-not-panic] res is Ok'],
+        loops={0: f'invariant attrs@.len() == ita.index@ + {S}, sibling == self.has_sibling(), '
+                  f'sibling ==> attrs@[0].sname().0 == 0x01 && attrs@[0].sform().0 == {SIB}, '
+                  f'forall|k: int| 0 <= k < ita.index@ ==> {SPECOK.format(A="attrs@", S=S)}'})
+
+    E = 'unit.enc()'
+    AWF = 'forall|k: int| 0 <= k < self.eattrs().len() ==> attr_wf(#[trigger] self.eattrs()[k].aval())'
+    di.splice('size', ret='res', requires=[AWF, f'die_fits(*self, {E}, *offsets)'], ensures=[
+        f'[C11:die-size-model] res matches Ok(n) ==> die_size(*self, {E}, *offsets, code) == Some(n as nat)',
+        f'[C11:error-not-panic] res is Err <==> die_size(*self, {E}, *offsets, code) is None'],
+        before=[('for attr in', 'let ghost base = size as nat;'),
+                ('size += attr.value.size(unit, offsets)?;',
+                 f'proof {{ assert(attr.aval() == self.eattrs()[its.index@].aval()); if attr_size_res(attr.aval(), {E}, *offsets) is None {{ '
+                 f'lemma_upto_none(self.eattrs(), its.index@ + 1, self.eattrs().len() as int, {E}, *offsets); }} }}')],
+        loops={0: f'invariant {AWF}, die_fits(*self, {E}, *offsets), base <= 18, '
+                  f'base == uleb_size(code as nat) + (if self.has_sibling() {{ word_size({E}.format) }} else {{ 0nat }}), '
+                  f'attrs_size_upto(self.eattrs(), its.index@, {E}, *offsets) == Some((size - base) as nat), size >= base'},
+        canary=True)
+
+    IX = '(self.eid().ix() as int)'
+    CODE = f'codes@[{IX}]'
+    W0, W1 = 'old(w).0.wv()', 'final(w).0.wv()'
+    PRE = ['unit_tree_ok(*unit)', 'unit_attrs_wf(*unit)',
+           f'{IX} < unit.ents().len() && *self == unit.ents()[{IX}]',
+           'offsets.base() == unit.ubase() && offsets.tab().len() == unit.ents().len() && codes@.len() == unit.ents().len()',
+           f'offsets.unit_off() <= {W0}.len',
+           # the table produced by calculate_offsets (R-ASSERT: debug_assert_eq!(offsets.debug_info_offset(self.id), Some(w.offset())))
+           f'[C11:entry-offset-assert] layout_ok(*unit, {IX}, {W0}.len, *offsets, codes@)']
+    D = f'die_size(*self, {E}, *offsets, {CODE})'
+    HEAD = f'uleb_size({CODE} as nat) + (if self.has_sibling() {{ word_size({E}.format) }} else {{ 0nat }})'
+    di.splice('write', ret='res', requires=PRE, decreases=f'height(*unit, {IX})', ensures=[
+        # the subtree occupies exactly the bytes the size model predicts (so every later entry is where its offset says)
+        f'[C11:tree-size-eq-len] res is Ok ==> (subtree_size(*unit, {IX}, *offsets, codes@) matches Some(n) && {W1}.len == {W0}.len + n)',
+        # the abbreviation code that was measured is the one written, first
+        f'[C11:entry-code] res is Ok ==> {W1}.ops.len() > {W0}.ops.len() && {W1}.ops[{W0}.ops.len() as int] == WOp::Uleb({CODE})',
+        # DW_AT_sibling: unit-relative offset of the entry after this subtree, patched into the placeholder that follows the code
+        f'[C11:sibling-patch] res is Ok && self.has_sibling() ==> {W1}.ops.last() == (WOp::PatchU {{ offset: {W0}.len + uleb_size({CODE} as nat), '
+        f'val: ({W1}.len - offsets.unit_off()) as nat, size: word_size({E}.format) }})',
+        f'[C11:w-frame] res is Ok ==> grew({W0}, {W1})',
+        '[C11:fixup-frame] seq_prefix(old(unit_refs)@, final(unit_refs)@) && seq_prefix(old(debug_info_refs)@, final(debug_info_refs)@)'],
+        before=[('crate::verif_assert((offsets.debug_info_offset(self.id)) == (Some(w.offset())));', f'proof {{ assert(entry_ok(*unit, {IX})); }}'),
+                ('w.write_uleb128(codes[self.id.index])?;', 'let ghost w0 = w.0.wv();'),
+                ('for attr in', 'let ghost wa = w.0.wv();'),
+                ('if !self.children.is_empty() {', f'let ghost wk = w.0.wv(); proof {{ assert(attrs_size_upto(self.eattrs(), self.eattrs().len() as int, {E}, *offsets) == Some((wk.len - wa.len) as nat)); }}'),
+                ('unit.entries[child.index].write(',
+                 f'proof {{ assert(entry_ok(*unit, {IX})); assert(*child == self.kids()[itc.index@]); assert(kid_ok(*unit, {IX}, itc.index@)); assert(entry_ok(*unit, child.ix() as int)); '
+                 f'lemma_kids_layout_mono(*unit, {IX}, itc.index@ + 1, self.kids().len() as int, wk.len, *offsets, codes@); }}')],
+        loops={0: f'invariant unit_attrs_wf(*unit), {IX} < unit.ents().len() && *self == unit.ents()[{IX}], '
+                  f'grew(w0, w.0.wv()), w.0.wv().ops.len() > w0.ops.len(), w.0.wv().ops[w0.ops.len() as int] == WOp::Uleb({CODE}), '
+                  f'wa.len == w0.len + {HEAD}, '
+                  f'attrs_size_upto(self.eattrs(), itw.index@, {E}, *offsets) == Some((w.0.wv().len - wa.len) as nat), w.0.wv().len >= wa.len, '
+                  'seq_prefix(old(unit_refs)@, unit_refs@) && seq_prefix(old(debug_info_refs)@, debug_info_refs@)',
+               1: f'invariant unit_tree_ok(*unit), unit_attrs_wf(*unit), {IX} < unit.ents().len() && *self == unit.ents()[{IX}], '
+                  'offsets.base() == unit.ubase() && offsets.tab().len() == unit.ents().len() && codes@.len() == unit.ents().len(), '
+                  f'offsets.unit_off() <= w0.len, {D} == Some((wk.len - w0.len) as nat), wk.len >= w0.len, '
+                  f'kids_layout(*unit, {IX}, self.kids().len() as int, wk.len, *offsets, codes@), '
+                  f'grew(w0, w.0.wv()), w.0.wv().ops.len() > w0.ops.len(), w.0.wv().ops[w0.ops.len() as int] == WOp::Uleb({CODE}), '
+                  f'kids_size(*unit, {IX}, itc.index@, *offsets, codes@) == Some((w.0.wv().len - wk.len) as nat), w.0.wv().len >= wk.len, '
+                  'seq_prefix(old(unit_refs)@, unit_refs@) && seq_prefix(old(debug_info_refs)@, debug_info_refs@)'},
+        canary=True)
+    sk.add('write::unit', di)
 
 
 def build(ctx):
     sk = Skeleton(ctx, core.rd('prelude/crate.rs'))
     core.populate(ctx, sk)
     wcore.populate(ctx, sk)
-    populate(ctx, sk, findings=True, part2=False)
+    populate(ctx, sk, findings=True, part2=True)
     return sk
